@@ -335,6 +335,21 @@ def run_cell(cell, seed):
                 pw.DTCWTInverse(qshift=name)
             if name == 'qshift_b_bp':
                 pw.ScatLayerj2(biort='near_sym_b_bp', qshift='qshift_b_bp')
+            if name in QSHIFT_NAMES:
+                # the documented tuple form of the DWT constructors, fed with the loader's own arrays, then an
+                # in-place state reload: the shipped table must be unaffected (checked by the loads that follow)
+                import torch
+                t = coeffs.qshift(name)
+                from .. import util as _u
+                with _u.default_dtype(torch.float64):
+                    m1 = pw.DWT1DInverse(wave=(t[2], t[6]))
+                    m2 = pw.DWT1DInverse(wave=(np.array(t[3]) * 0.5, np.array(t[7]) * 0.5))
+                    m3 = pw.DWT1DForward(J=1, wave=(t[0], t[4]))
+                try:
+                    m1.load_state_dict(m2.state_dict())
+                except Exception:
+                    pass
+                coeffs.qshift(name)
         except Exception as e:
             with _LOCK:
                 errors.setdefault('construct', []).append(repr(e))
